@@ -55,6 +55,6 @@ def run(ctx):
                         "responses, lost server tx timestamps, server clock steps of +-1 s, idle > 3 s) executed by the "
                         "harness network against the real IPClient and the real server handler on loopback",
                    samples=acc[:3] + [x for x in acc if x["il"]][:2])
-    ctx.assumptions += ["IP transport only (the SCION client has the same state machine; see C13/C15 for SCION)",
+    ctx.assumptions += ["IP and SCION clients alternate per schedule (SCION: same-AS empty path, no SPAO - see C13)",
                         "a datagram reaches only the socket it was addressed to (no ephemeral-port reuse)",
                         "loopback kernel software timestamps; identification windows of 4 ms around harness kernel timestamps"]
